@@ -57,7 +57,7 @@ static void prop(Tape &t, Ctx &c) {
     sslSessionId_t *sid = nullptr; struct SG { sslSessionId_t *&s; ~SG() { if (s) matrixSslDeleteSessionId(s); } } sg{ sid };
     auto mk = [&](Pair &p, sslSessionId_t *s) { Config cc, sc; cc.client = true; sc.client = false; cc.versions = sc.versions = { ver }; cc.suites = { su.id }; cc.auth = sc.auth = su.auth; cc.entropy_stream = 1; sc.entropy_stream = 2;
         cc.client_auth = sc.client_auth = kind == 1; sc.cert_cb = cb_strict; cc.sid = s; return p.s.open(sc) >= 0 && p.c.open(cc) >= 0; };
-    if (kind == 2) { if (matrixSslNewSessionId(&sid, NULL) < 0) throw Discard{}; Pair p0; if (!mk(p0, sid)) throw Discard{}; if (!p0.run(40)) throw Discard{}; }
+    if (kind == 2) { if (matrixSslNewSessionId(&sid, NULL) < 0) throw Discard{}; Pair p0; if (!mk(p0, sid)) throw Discard{}; if (!p0.run(40)) { c.count("priming-handshake-failed(loss-free)"); throw Discard{}; } }
     // Baseline: the same configuration must complete on a loss-free network, otherwise the (suite, PMTU) combination is
     // outside the property's domain ("correctly configured peers"): e.g. PMTU 256 cannot carry an RSA-2048 ClientKeyExchange,
     // which MatrixSSL does not fragment.  Cached per combination.
